@@ -89,8 +89,12 @@ SchCheck(c, op, o, ev) ==
       isKnown(sid) == \E s \in o.known : s.sid = sid
   IN
   (* ---------------- C15 ---------------- *)
-     (IF ev.e = "poll" /\ ev.t # (IF ev.n = 1 THEN c.start ELSE (MinuteOf(c, op.pollT[ev.src] + MaxLat(c)) + 1) * c.minute)
-      THEN {"C15_PollTimes"} ELSE {})
+     (* "at start and at every minute boundary": to the scheduler's own resolution of one second (a loop that wakes a few *)
+     (* milliseconds after the boundary to be safe against clock granularity still polls "at the boundary")              *)
+     (IF ev.e = "poll"
+      THEN LET due == IF ev.n = 1 THEN c.start ELSE (MinuteOf(c, op.pollT[ev.src] + MaxLat(c)) + 1) * c.minute
+           IN IF ev.t < due \/ ev.t >= due + c.second THEN {"C15_PollTimes"} ELSE {}
+      ELSE {})
   \cup (IF ev.e = "poll" /\ ev.n # op.pollN[ev.src] + 1 THEN {"C15_PollTimes"} ELSE {})
   \cup (IF ev.e = "eot" /\ \E i \in DOMAIN c.srcs : o.pollT[i] + MaxLat(c) + c.minute < ev.t THEN {"C15_PollsContinue"} ELSE {})
   \cup (IF ev.e = "eot" /\ ~ev.ok THEN {"C15_LoopDied"} ELSE {})
